@@ -73,6 +73,8 @@ package moq
 //@   loop 1 invariant idx: rangeIndex >= -1
 //@   loop 1 invariant {C20} names-so-far: forall(k, 0 <= k && k <= rangeIndex ==> mocks[k].InterfaceName == ifaceNameOf(namePairs[k]) && mocks[k].MockName == mockNameOf(namePairs[k]))
 //@   loop 1 invariant {C02,C20} methods-so-far: forall(k, 0 <= k && k <= rangeIndex ==> methodsAre(mocks[k].Methods, ifaceFor(m, ifaceNameOf(namePairs[k])), len(mocks[k].Methods)) && len(mocks[k].Methods) == ifaceFor(m, ifaceNameOf(namePairs[k])).NumMethods())
+//@   loop 1 invariant {C17,C20} all-found-so-far: forall(k, 0 <= k && k <= rangeIndex ==> foundIface(m, ifaceNameOf(namePairs[k])))
+//@   loop 2 invariant {C17,C20} all-found-kept: forall(k, 0 <= k && k <= rangeIndex1 ==> foundIface(m, ifaceNameOf(namePairs[k]))) && foundIface(m, name)
 //@   loop 2 invariant wf: wfK(m.registry)
 //@   loop 2 invariant jdx: ix >= 0
 //@   loop 2 invariant {C20} outer-idx: rangeIndex1 >= -1 && rangeIndex1 + 1 < len(namePairs) && len(mocks) == len(namePairs)
@@ -95,6 +97,7 @@ package moq
 //@   ensures{C08} flags-to-template: forallEv(i, evIs(i, "call:template.Template.Execute") ==> evArg(i, 2).StubImpl == old(m.cfg.StubImpl) && evArg(i, 2).SkipEnsure == old(m.cfg.SkipEnsure) && evArg(i, 2).WithResets == old(m.cfg.WithResets))
 //@   ensures{C10} pkg-clause: forallEv(i, evIs(i, "call:template.Template.Execute") ==> evArg(i, 2).PkgName == ite(old(m.cfg.PkgName) != "", old(m.cfg.PkgName), old(m.registry.srcPkgName)))
 //@   ensures{C20} one-mock-per-argument: forallEv(i, evIs(i, "call:template.Template.Execute") ==> len(evArg(i, 2).Mocks) == len(namePairs))
+//@   ensures{C17,C19} success-means-every-argument-is-an-interface: err == nil ==> forall(k, 0 <= k && k < len(namePairs) ==> foundIface(m, ifaceNameOf(old(namePairs[k]))))
 //@   ensures{C02,C20} each-mock-named-from-its-own-argument: forallEv(i, evIs(i, "call:template.Template.Execute") ==> forall(k, 0 <= k && k < len(namePairs) ==> evArg(i, 2).Mocks[k].InterfaceName == ifaceNameOf(old(namePairs[k])) && evArg(i, 2).Mocks[k].MockName == mockNameOf(old(namePairs[k]))))
 //@   ensures{C02,C20} each-mock-method-count-from-its-own-interface: forallEv(i, evIs(i, "call:template.Template.Execute") ==> forall(k, 0 <= k && k < len(namePairs) ==> len(evArg(i, 2).Mocks[k].Methods) == ifaceFor(m, ifaceNameOf(old(namePairs[k]))).NumMethods()))
 //@   ensures{C02,C20} each-mock-methods-from-its-own-interface: forallEv(i, evIs(i, "call:template.Template.Execute") ==> forall(k, 0 <= k && k < len(namePairs) ==> methodsAre(evArg(i, 2).Mocks[k].Methods, ifaceFor(m, ifaceNameOf(old(namePairs[k]))), len(evArg(i, 2).Mocks[k].Methods))))
@@ -107,6 +110,7 @@ package moq
 //@ define isSrcImport(j) = true
 //@ -- C02/C20: the method list of a mock is exactly the method set of ITS OWN interface, in order
 //@ define ifaceFor(m, name) = as(m.registry.srcPkgTypes.Scope().Lookup(name).Type().Underlying(), *types.Interface).Complete()
+//@ define foundIface(m, name) = m.registry.srcPkgTypes.Scope().Lookup(name) != nil && isIface(m.registry.srcPkgTypes.Scope().Lookup(name).Type())
 //@ define methodsAre(ms, iface, n) = forall(j, 0 <= j && j < n ==> ms[j].Name == iface.Method(j).Name())
 
 //@ func template.Template.Execute
